@@ -368,6 +368,17 @@ func (l *lexer) unread() {
 	l.r.UnreadRune()
 }
 
+// set assigns value to the variable unless an error has already been
+// recorded.
+func (l *lexer) set(name, value string) {
+	l.mu.Lock()
+	err := l.err
+	l.mu.Unlock()
+	if err == nil {
+		l.env.Set(name, value)
+	}
+}
+
 func (l *lexer) Error(s string) {
 	l.mu.Lock()
 	defer l.mu.Unlock()
